@@ -656,3 +656,99 @@ fn b6_from_reader_chain_back() {
 fn b6_from_reader_prefix_8() {
 	b6_body::<8>(false);
 }
+
+// ---------------------------------------------------------------------------------------
+// B7: ArrayBuffer is a FIFO of bytes with a fixed capacity
+// ---------------------------------------------------------------------------------------
+
+/// B7: every program of four operations (write / read / consume / set / fill_buf / is_empty) on an
+/// ArrayBuffer<4>, against the obvious specification: bytes come out in the order they were accepted,
+/// each exactly once; `is_empty` holds exactly when every accepted byte has been taken; `write` accepts
+/// as much as still fits behind what was accepted since the last `set`; `set` replaces the content.
+#[kani::proof]
+#[kani::unwind(8)]
+fn b7_array_buffer_programs() {
+	const CAP: usize = 4;
+	let mut ab: ArrayBuffer<CAP> = ArrayBuffer::new();
+	// the specification state: what was accepted since the last set, and how much of it was taken
+	let mut accepted = [0u8; CAP];
+	let mut alen = 0usize;
+	let mut taken = 0usize;
+	let mut step = 0;
+	while step < 4 {
+		let op: u8 = kani::any();
+		kani::assume(op < 4);
+		let data: [u8; 3] = kani::any();
+		let n: usize = kani::any();
+		kani::assume(n <= 3);
+		if op == 0 {
+			let got = match ab.write(&data[..n]) {
+				Ok(g) => g,
+				Err(_) => {
+					assert!(false, "B7: write cannot fail");
+					0
+				}
+			};
+			let room = CAP - alen;
+			assert!(got == if n < room { n } else { room }, "B7: write accepts what fits");
+			let mut j = 0;
+			while j < got {
+				accepted[alen + j] = data[j];
+				j += 1;
+			}
+			alen += got;
+		} else if op == 1 {
+			let mut out = [0u8; 3];
+			let got = match ab.read(&mut out[..n]) {
+				Ok(g) => g,
+				Err(_) => {
+					assert!(false, "B7: read cannot fail");
+					0
+				}
+			};
+			let avail = alen - taken;
+			assert!(got == if n < avail { n } else { avail }, "B7: read hands out what is there, up to the buffer size");
+			let mut j = 0;
+			while j < got {
+				assert!(out[j] == accepted[taken + j], "B7: bytes come out in the order they went in");
+				j += 1;
+			}
+			taken += got;
+			kani::cover!(got == 2 && taken == 3, "B7 second read continues where the first stopped");
+		} else if op == 2 {
+			let avail = alen - taken;
+			if n <= avail {
+				ab.consume(n);
+				taken += n;
+			}
+		} else {
+			ab.set(&data[..n]);
+			let mut j = 0;
+			while j < n {
+				accepted[j] = data[j];
+				j += 1;
+			}
+			alen = n;
+			taken = 0;
+		}
+		// observers after every step
+		assert!(ab.is_empty() == (taken == alen), "B7: is_empty exactly when every accepted byte has been taken");
+		let view = match ab.fill_buf() {
+			Ok(v) => v,
+			Err(_) => {
+				assert!(false, "B7: fill_buf cannot fail");
+				&[]
+			}
+		};
+		assert!(view.len() == alen - taken, "B7: fill_buf shows exactly the bytes not yet taken");
+		let mut j = 0;
+		while j < CAP {
+			if j < view.len() {
+				assert!(view[j] == accepted[taken + j], "B7: fill_buf shows them in order");
+			}
+			j += 1;
+		}
+		step += 1;
+	}
+	kani::cover!(alen == 4 && taken == 4, "B7 filled and drained");
+}
